@@ -130,6 +130,10 @@ impl<R: Read> Read for DiscardOnDrop<R> {
 
 impl<R: Read> Drop for DiscardOnDrop<R> {
     fn drop(&mut self) {
+        #[cfg(tiny_http_verif)]
+        if !self.finished {
+            simrt::probe("chunked_body.discards_unread_remainder");
+        }
         let mut buf = [0; 1024];
         while !self.finished {
             match self.inner.read(&mut buf) {
@@ -250,6 +254,8 @@ where
             Box::new(io::empty()) as Box<dyn Read + Send + 'static>
         } else if content_length <= 1024 && !expects_continue {
             // if the content-length is small enough, we just read everything into a buffer
+            #[cfg(tiny_http_verif)]
+            simrt::probe("request.body.buffered_at_parse_time");
 
             let mut buffer = vec![0; content_length];
             let mut offset = 0;
@@ -269,6 +275,8 @@ where
 
             Box::new(Cursor::new(buffer)) as Box<dyn Read + Send + 'static>
         } else {
+            #[cfg(tiny_http_verif)]
+            simrt::probe("request.body.streamed_content_length");
             let (data_reader, _) = EqualReader::new(source_data, content_length); // TODO:
             Box::new(FusedReader::new(data_reader)) as Box<dyn Read + Send + 'static>
         }
@@ -420,6 +428,8 @@ impl Request {
     #[inline]
     pub fn as_reader(&mut self) -> &mut dyn Read {
         if self.must_send_continue {
+            #[cfg(tiny_http_verif)]
+            simrt::probe("request.sends_100_continue");
             let msg = Response::new_empty(StatusCode(100));
             msg.raw_print(
                 self.response_writer.as_mut().unwrap().by_ref(),
@@ -548,6 +558,8 @@ impl fmt::Debug for Request {
 impl Drop for Request {
     fn drop(&mut self) {
         if self.response_writer.is_some() {
+            #[cfg(tiny_http_verif)]
+            simrt::probe("request.dropped_unanswered_500");
             let response = Response::empty(500);
             let _ = self.respond_impl(response); // ignoring any potential error
             if let Some(sender) = self.notify_when_responded.take() {
